@@ -20,7 +20,7 @@ META = {
                   "(d) span arithmetic: every span built by ParseError::from_lexical / from_lalrpop, by the split of a candidate interpolation and by RawSpan::fuse lies within [0, len] with start <= end (sources < 4 GiB because of the u32 casts); the escape-sequence span of the code before 62096ac is REFUTED for char boundaries and the JSON/TOML error spans before fa9c5c0 are REFUTED for the range; the current conversions are proved (from_lexical_fixed; external_error_span: in range, on char boundaries, non-empty before EOF); "
                   "(e) NameReg::select_uniq (type error reporting) as it was before 26454e7 is REFUTED for termination (diverges when candidate and candidate1 are taken), the current loop terminates on every finite registry with a free name; pretty_print_cap before 03ad279 and the lone-carriage-return assertion before 4ff7631 are refuted with witnesses, the current code proved panic-free (these nine defects were found by this check and repaired in /repo: known_findings.txt); "
                   "(f) merge_fields' value selection by priority never reaches its unreachable!() arm (the hand-written == and > of MergePriority agree and are antisymmetric); (g) importing a TOML document never reaches the expect of number_from_float: check_floats visits every float the conversion visits, at any nesting of tables, arrays of tables, arrays and inline tables (C10_no_panic_toml_import; C10_toml_check_needs_inline_arm shows a walk without the inline-table arm is unsound); (h) the phase invariant relied on by the AST -> runtime conversion (core/src/ast/compat.rs LabeledType::from_ast panics on an annotation type without position): for both orders in which the grammar combines WithPos and fix_type_vars, the type delivered has a position because every node rebuilt by fix_type_vars keeps the position of the node it replaces (C10_no_panic_labeled_type; C10_rebuilt_type_needs_position shows a rebuilt enum node without it breaks exactly the record-field order); (i) the panic-site ledger: C10_sites_all_covered / C10_ledger_no_stale - each of the ~180 panic-capable sites (unwrap, expect, panic!, unreachable!, unimplemented!, assert!, debug_assert!, indexing, integer casts; for C10's own cores also unsigned subtractions and panicking library calls) in the functions mirrored by a model (vector, slice, resolve, version, lock, merge, contract_eq, nls world, eval stack, lazy thunks, lexer, parser error conversion, reporting, string primops, the modelled arms of operation.rs) is mapped to a theorem of coq/Crash (checked term), to a theorem of another property by name (existence checked), or to an explicit Unproved entry (a known-defect entry kind with a refuting lemma exists for reachable sites; none at present); the list is regenerated from /repo on every run and a site that appears, disappears or moves breaks the theorems. "
-                  "NOT PROVED: crash-freedom of the whole pipeline over all byte strings. It is validated by sampling only: quick tier about 5 000 inputs, thorough about 300 000 (grammar-generated well-typed / ill-typed / ill-formed programs, token- and byte-level mutations of about 900 repository files, constructs nested 200 deep on an 8 MiB stack, random bytes incl. invalid UTF-8), each through lexing, strict and tolerant parsing, typechecking (both modes), evaluation with a step budget, export to every format, query, record-spine evaluation, pretty-printing and rendering of every error, in a worker process whose death by signal is a finding. Absence of findings there is not the universal claim.",
+                  "NOT PROVED: crash-freedom of the whole pipeline over all byte strings. It is validated by sampling only: quick tier about 27 000 inputs incl. the deterministic matrices, thorough 12x the sampled streams by default (VERIF_C10_SCALE=60: about 300 000) (grammar-generated well-typed / ill-typed / ill-formed programs, token- and byte-level mutations of about 900 repository files, constructs nested 200 deep on an 8 MiB stack, random bytes incl. invalid UTF-8), each through lexing, strict and tolerant parsing, typechecking (both modes), evaluation with a step budget, export to every format, query, record-spine evaluation, pretty-printing and rendering of every error, in a worker process whose death by signal is a finding. Absence of findings there is not the universal claim.",
     "level_note": "Trusted: Coq kernel; extraction (ExtrOcamlBasic + ExtrOcamlNativeString); the hand-written models' reading of operation.rs, term/string.rs, lexer.rs, parser error.rs, reporting.rs (tied by differential runs: primop cores and the merge priority selection (quick: 1500 sampled cases; thorough: all 4808 combinations of the operand pools), lexer automaton 700/20000 sources step by step with raw tokens obtained independently from the logos sub-lexers, lexical-error and split spans against the parser's own errors, TOML import on 400/8000 generated toml_edit-shaped documents); the syntactic site translator; the harness (catch_unwind + supervisor; gdb only to name the repeating frames of a stack overflow or a hang). "
                   "Modelled, not verified: floats are abstract (theorems hold for every float function); logos regex matching, LALRPOP tables, malachite, serde/toml/saphyr, codespan rendering are not modelled; usize overflow of counters at 2^64 is out of reach of inputs that fit in memory and not modelled. "
                   "Delegated ledger entries rest on the other properties' theorems (C17, C18, C19, C20, C04, C16) by name. Not compiled into the harness: cargo features doc (markdown rendering; the evaluation part eval_record_spine is exercised), repl (query printing is reproduced by calling PrettyPrintCap as the CLI does), format, nix-experimental. "
@@ -1097,7 +1097,9 @@ def run(ck):
     if not ok_h:
         return
     quick = ck.tier == "quick"
-    scale = 1 if quick else 60
+    # thorough: 12x the quick sample sizes by default (about 1 h on 16 idle cores since the deterministic matrices were
+    # added); VERIF_C10_SCALE=60 gives the original 300 000-input soak (several hours)
+    scale = 1 if quick else int(os.environ.get("VERIF_C10_SCALE", "12"))
     if os.environ.get("C10_SCALE"):      # development aid only
         scale = float(os.environ["C10_SCALE"])
     if exe_model:
